@@ -1029,6 +1029,10 @@ class VectorSerializer(Generic[T, T_NP], TypeSerializer[list[T], np.object_]):
             self._element_serializer.write(stream, element)
 
     def write_numpy(self, stream: CodedOutputStream, value: np.object_) -> None:
+        # read_numpy hands a vector out as whatever np.object_() makes of the list, which
+        # for a list of numbers is a one-dimensional array: that has to be writable too
+        if isinstance(value, np.ndarray) and value.ndim == 1:
+            value = value.tolist()  # pyright: ignore
         if not isinstance(value, list):
             raise ValueError(f"Expected a list, got {type(value)}")
 
